@@ -307,6 +307,44 @@ func (copyEngine) Decode(b []byte) (interface{}, error) {
 	return c, err
 }
 
+// Preflight: Copy() taken at every poll of two fixed programs that pass through
+// every kind of execution context (direct and nested eval code, Function code,
+// with and catch environments, closures, getters, native callbacks).
+func (e copyEngine) Preflight(st *Stats) (*Violation, interface{}) {
+	progs := []string{
+		"var pf0=0;function pfa(n){var loc=n;with({w:n}){try{throw n}catch(ce){pf0+=eval('var ev=ce+w+loc;eval(\"ev+1\")')}}return pf0}" +
+			"H.pf=[pfa(1),pfa(2)];H.pfe=eval('(function(){var c=0;return function(){return eval(\"++c\")}})()');H.pfe();H.pfn=Function('a','return eval(\"a*2\")')(4);",
+		"H.pg={get g(){return [3,1,2].sort(function(a,b){return eval('a-b')}).join()}};H.pgs=H.pg.g;H.pgm=[1,2].map(function(x){return JSON.stringify({k:x},function(k,v){return v})});" +
+			"H.pgr='a1b2'.replace(/\\d/g,function(m){return eval('m*2')});",
+	}
+	// quick: one limit and every third poll (offset chosen by the PRNG value);
+	// thorough: three limits, every poll
+	limits, stride, off := []int{30}, 3, int(curBatchSeed%3)
+	if curTier == "thorough" {
+		limits, stride, off = []int{0, 30, 31}, 1, 0
+	}
+	for pi, prog := range progs {
+		for _, limit := range limits {
+			for step := off; step < 400; step += stride {
+				taken := st.Probes["copy_taken_mid_run"]
+				c := &CopyCase{Engine: "copysim", Limit: limit, Ops: []COp{
+					{Kind: "run", Node: 0, Src: "H.base" + strconv.Itoa(pi) + "={a:1,b:[1,2]};"},
+					{Kind: "midcopy", Node: 0, Src: prog, Step: step},
+					{Kind: "copy", Node: 1},
+				}}
+				if v, rc, _ := e.Exec(c, st); v != nil {
+					return v, rc
+				}
+				if st.Probes["copy_taken_mid_run"] == taken {
+					break // the program ended before this poll
+				}
+			}
+		}
+	}
+	st.Probe("midcopy_at_every_poll_enumerated")
+	return nil, nil
+}
+
 func (copyEngine) Exec(ci interface{}, st *Stats) (*Violation, interface{}, bool) {
 	c := ci.(*CopyCase)
 	st.Cases++
@@ -639,6 +677,7 @@ func heapFragments(i int) []string {
 		"var SH" + n + "={wv:'w" + n + "'};function mkw" + n + "(tag){with(SH" + n + "){return function(){return tag+wv}}}H.wa" + n + "=mkw" + n + "('a');H.wb" + n + "=mkw" + n + "('b');",
 		"H.mx" + n + "=(function(){var c=0,f;f=Math.max.bind(null,{valueOf:function(){if(c++%2===0)f(1000);return 1}},2);return f})();",
 		"H.jp" + n + "=JSON.parse('{\"b\":1,\"a\":{\"z\":1,\"y\":2,\"x\":3,\"w\":4},\"c\":[{\"q\":1,\"p\":2,\"o\":3}],\"d\":4,\"e\":5}');",
+		"eval('var ev" + n + "=0;for(var ei" + n + "=0;ei" + n + "<6;ei" + n + "++){ev" + n + "+=ei" + n + ";H.ev" + n + "=eval(\\'ev" + n + "*2\\')}');",
 		"H.og" + n + "={};H.og" + n + ".a=1;H.og" + n + ".b=2;H.og" + n + ".c=3;H.og" + n + ".d=4;H.og" + n + ".e=5;",
 		"H.pa" + n + "=(function(arguments){return function(){return String(arguments)}})(" + n + ");",
 		"H.em" + n + "={};H.ea" + n + "=[];H.ef" + n + "=function(){};",
@@ -678,6 +717,7 @@ var observeFragments = []string{
 	"try{var hp=hpair(2,3);rec(String(hp)+':'+(hp instanceof Array)+':'+(Object.getPrototypeOf(hp)===Array.prototype))}catch(e){rec('E'+e)}",
 	"try{hpair(1)}catch(e){rec(e.name+':'+(e instanceof RangeError)+':'+(Object.getPrototypeOf(e)===RangeError.prototype))}",
 	"try{rec(typeof H.dive==='function'?H.dive(25)+':'+H.dive(3):'nodive')}catch(e){rec('E'+e)}",
+	"try{rec('evd'+(function dv(n){try{return eval('dv(n+1)')}catch(e){return n}})(0)+':'+(function dw(n){try{return n>400?n:dw(n+1)}catch(e){return n}})(0))}catch(e){rec('E'+e)}",
 	"try{rec('tl'+(function d(k){if(k<=0){try{null.x}catch(e){return String(e.stack).split('\\n').length}}return d(k-1)})(17))}catch(e){rec('E'+e)}",
 	"try{rec(H.realEval?(function(eval){var loc='local';return eval('loc')})(H.realEval)+':'+eval('loc'):'noeval')}catch(e){rec('E'+e)}",
 	"for(var k in H){try{if(k.slice(0,2)==='pa')rec(k+':'+H[k]())}catch(e){rec('E'+e)}}",
